@@ -158,6 +158,7 @@ class MetaWorld:
         self.seen = {TK_LPF: set(), TK_SF: set()}
         self.released = {}          # dual-yield nonce -> [LP-farm amount, staking-farm amount] that left the proxy for it
         self.env_ops = 0
+        self.skipped = 0
         self.advance(1, 1, 0)
         for u in range(1, NUSERS + 1):
             if cfg["energy"].get(str(u)):
@@ -311,6 +312,13 @@ class MetaWorld:
                         lp_out -= meas["liq"] * self.cfg["pen"] // 10000
                 meas["lp_out"] = lp_out
                 meas["quote"] = self.spot_view(lp_out) if lp_out > 0 else None
+        if k in ("Stake", "Claim") and meas["safe"] is not None and self.stk_side(meas["safe"]) == 0 \
+                and not (k == "Stake" and dy_pays) and not oc:
+            # The position is worth 0 staking tokens: the transaction would create farm / dual-yield
+            # tokens of quantity 0.  The protocol's ESDTNFTCreate rejects quantity 0 (the model says Err);
+            # the debug VM's mock accepts it.  Not an operation this run can judge: not executed.
+            self.skipped += 1
+            return None
         if k == "Stake":
             r = vm.call(A[u], self.proxy, "stakeFarmTokens", extra, real_pays)
         elif k == "Claim":
@@ -398,7 +406,7 @@ class MetaWorld:
                 if len(pays) > 1:
                     e["lp"] = self.pos_delta(dproxy, TK_LPF)
             else:
-                e["fail"] = meas["liq"] is not None and (meas["safe"] is None or self.stk_side(meas["safe"]) == 0)
+                e["fail"] = meas["liq"] is not None and meas["safe"] is None
             return e
         if k == "Claim":
             e = dict(fail=False, sp=meas["safe"] or z4, lp=(0, 0), rl=0, sf=(0, 0), rs=0)
@@ -407,7 +415,7 @@ class MetaWorld:
                 e["sf"] = self.pos_delta(dproxy, TK_SF)
                 e["rl"], e["rs"] = (meas["ret"][0][2], meas["ret"][1][2]) if len(meas["ret"]) == 3 else (0, 0)
             else:
-                e["fail"] = meas["liq"] is not None and (meas["safe"] is None or self.stk_side(meas["safe"]) == 0)
+                e["fail"] = meas["liq"] is not None and meas["safe"] is None
             return e
         e = dict(fail=False, lpout=0, rl=0, rm=z4, ub=(0, 0), rs=0)
         if ok:
